@@ -171,6 +171,22 @@ ADDENDA = {
     "C17": (" Sequences of deliveries through ONE deliverer and ONE signing configuration with the clock moving forwards, backwards and shuffled: the version signed with is a function of the signing instant alone.", ""),
     "C18": (" File replacement is also run through a symlinked configuration path (strace trace judged by replace_ok, SIGKILL at every syscall).", ""),
 }
+ADDENDA2 = {
+    "C01": " Ingress bodies are also streamed without a Content-Length, within and three times over the route's max_body.",
+    "C05": " Hundreds to thousands of messages becoming ready at one instant (leases expiring together, also across a restart; nack delays and scheduled deliveries maturing together) must be handed out min(batch, ready) per dequeue by calls 1 us / 1 ms apart (closed form of C05_dequeue_count; model-evaluated in the thorough tier).",
+    "C06": " Micro-batch: Model/PushLoop.v models what runRoute does with the messages one Dequeue hands it (batched / single lease mutations grouped by delay and reason, unknown targets, stop); Properties/C06loop.v proves that every leased message gets exactly one settlement of the prescribed kind and, on the queue model, ends as lease_effect of its own settlement while every other message is untouched; the harness mode dispatch-stop records the store calls of the real PushDispatcher (Drain during the k-th delivery) and compares them with the model per micro-batch. Resolver failures through the real deliverer must be retried, not dead-lettered.",
+    "C08": " The caller may reset its connection while the forward-auth service is still deciding: the queue stays untouched.",
+    "C11": " A staged pull-auth edit followed by an Admin managed-endpoint mutation: every pull endpoint answers by the allowlists of the file in force.",
+    "C14": " MCP Admin-proxy mode: Model/ManageProxy.v + Properties/C14proxy.v (request faithful, counts faithful, a write is served at most once under every fault script of the transport; the retry policy is read from the source by translate/adminproxy.go).",
+    "C16": " A host is the same host in Unicode and in punycode spelling (net/http dials the IDNA form): every rule spelling x every URL spelling, target and redirect hop; deliveries whose outbound signing cannot succeed stay policy_denied when the policy denies them.",
+    "C17": " The clock may move WHILE one delivery is signed (2 s per reading around every window edge): the secret is the one the rule picks at the instant the request is stamped with.",
+    "C20": " One long-lived server through 3-8 mutating calls with an audit sink that fails once (or writes short) and recovers: every other call is audited, in order; Admin-proxy mode forwards the audit identity.",
+}
+for _pid, _t in ADDENDA2.items():
+    if _pid in ADDENDA:
+        ADDENDA[_pid] = (ADDENDA[_pid][0] + _t, ADDENDA[_pid][1])
+    else:
+        ADDENDA[_pid] = (_t, "")
 for _pid, (_t, _n) in ADDENDA.items():
     CHECKS[_pid]["text"] = CHECKS[_pid]["text"] + _t
     CHECKS[_pid]["note"] = CHECKS[_pid]["note"] + _n
